@@ -110,7 +110,7 @@ theorem C05_arm (ext : Ext F) (s : Scalar) (a : Action) (v : GoVal F)
   | timeParseKeep => simp [armSoundOut] at hs
   | convStrict t => simp [armSoundOut] at hs
   | parseInt32Keep => simp [armSoundOut] at hs
-  | parseFloatFinite => simp [armSoundOut] at hs
+  | parseFloatFinite t => simp [armSoundOut] at hs
   | fmtUint => exact C05_arm_fmtUint ext s v hs hw
 
 
